@@ -15,6 +15,7 @@
 package acl
 
 import (
+	"errors"
 	"slices"
 	"strings"
 )
@@ -119,6 +120,11 @@ func RemoveDuplicateEntries(entries []string, allAlias string) (res []string) {
 }
 
 func (user *User) UpdateUser(cmd []string) error {
+	// Refuse an empty username or rule before anything is modified.
+	if slices.Contains(cmd, "") {
+		return errors.New("the username and the rules of ACL SETUSER must not be empty")
+	}
+
 	for _, str := range cmd {
 		// Parse enabled
 		if strings.EqualFold(str, "on") {
